@@ -433,7 +433,7 @@ def _custom_builder(Builder):
     return SearchPathBuilder
 
 
-def _child(files, calls, fs_faults, pre_calls, entry='builder', mid_build=None):
+def _child(files, calls, fs_faults, pre_calls, entry='builder', mid_build=None, repair=None):
     from awesomeyaml import Builder, Config, errors
     import io
     import pathlib
@@ -482,7 +482,16 @@ def _child(files, calls, fs_faults, pre_calls, entry='builder', mid_build=None):
                     out['mid_build'] = ci
                 add(b, c)
             stage = 'build'
-            root = b.build()
+            try:
+                root = b.build()
+            except errors.Error:
+                if not repair:
+                    raise
+                # the build failed (files missing); they are put in place and the same builder is asked again
+                fs.files.update(repair)
+                out['repaired'] = True
+                stage = 'build_after_repair'
+                root = b.build()
             stage = 'eval'
             cfg = Config(root)
             out['status'] = 'ok'
@@ -513,9 +522,9 @@ class _Done(Exception):
     pass
 
 
-def _run(mat, fs_faults=(), pre_calls=(), drop=(), entry='builder', mid_build=None):
+def _run(mat, fs_faults=(), pre_calls=(), drop=(), entry='builder', mid_build=None, repair=None):
     files = {k: v for k, v in mat['files'].items() if k not in drop}
-    c = core.fork_call(_child, (files, mat['calls'], list(fs_faults), list(pre_calls), entry, mid_build), timeout=40)
+    c = core.fork_call(_child, (files, mat['calls'], list(fs_faults), list(pre_calls), entry, mid_build, repair), timeout=40)
     if c['status'] != 'ok':
         raise core.HarnessError(f'{c["status"]}: {c.get("error", c.get("signal", ""))}')
     return c['value']
@@ -670,6 +679,21 @@ def execute(sc):
                 else:
                     _check_lookup(mat, obs, res, 'under_key')
                     _check_paths(sc, mat, obs, res, 'under_key')
+                    inc = mat['includes']
+                    if not res['violations'] and len(inc) >= 2 and sum(1 for i in inc if i['target'] == inc[-1]['target']) == 1:
+                        # the last of the names is found nowhere (the earlier ones are): the build must fail and say which
+                        drop = {inc[-1]['target']}
+                        files2 = {k: v for k, v in mat['files'].items() if k not in drop}
+                        if lookup_model(files2, inc[-1]['from'], inc[-1]['name']) is None:
+                            ob5 = _run(mat, drop=drop)
+                            st['runs'] += 1
+                            count(probes, 'under_key_last_name_missing')
+                            count(st['faults'], 'file_missing')
+                            nm = expand_home(inc[-1]['name'])
+                            if ob5['status'] == 'ok':
+                                res['violations'].append(core.violation('missing.not_reported', f'{_UNDER[shape][0]}: the last name {nm!r} is found nowhere but the build succeeded', n=1))
+                            elif nm not in ob5['exc']['msg'] and posixpath.basename(nm) not in ob5['exc']['msg']:
+                                res['violations'].append(core.violation('missing.not_named', f'{_UNDER[shape][0]}: error does not name the missing file {nm!r}: {ob5["exc"]["msg"][:500]}'))
         # key: !include f merged over earlier content of the same key == the file's (stand-alone) content placed there
         if not res['violations'] and len(sc['docs']) >= 2 and sc.get('under_key') and not has_empty:
             d1, d2 = sc['docs'][0], sc['docs'][1]
@@ -743,6 +767,20 @@ def execute(sc):
                 if named and not any(nm in miss_names for nm in named):
                     res['violations'].append(core.violation('missing.not_named', f'{label}: the error\'s list of missing files {named!r} contains none of the missing ones {sorted(miss_names)!r}'))
                     break
+                # the missing files are put in place and build() is called again on the same builder: same config as if nothing had happened
+                if ref['status'] == 'ok' and not any(lookup_model(files, i['from'], i['name']) is not None for i in mat['includes'] if i['target'] in drop):
+                    ob4 = _run(mat, drop=drop, repair={k: mat['files'][k] for k in drop})
+                    st['runs'] += 1
+                    if ob4.get('repaired'):
+                        count(probes, 'build_failed_then_files_restored')
+                        if ob4['status'] != 'ok':
+                            res['violations'].append(core.violation('fault.state_leak', f'{label}: after the missing files {sorted(drop)!r} were put in place, build() on the same builder still fails at stage {ob4.get("stage")}: '
+                                                                    f'{ob4["exc"]["type"]}: {ob4["exc"]["msg"][:500]}', kind='rebuild_after_missing'))
+                            break
+                        if ob4['cfg'] != ref['cfg']:
+                            d = _first_diff(ob4['cfg'], ref['cfg'])
+                            res['violations'].append(core.violation('fault.wrong_data', f'{label}: after the missing files were put in place, the second build() gives a different config at {d[0]}: {d[1]!r} vs {d[2]!r}', kind='rebuild_after_missing'))
+                            break
             elif f['kind'] in ('io', 'replaced'):
                 if f['kind'] == 'io':
                     fsf = [{'nth': f['nth'], 'kind': f['err']}]
